@@ -87,7 +87,8 @@ func idFromNamed(typ *types.Named) string {
 	if len(pkg) > 4 {
 		pkg = pkg[:4]
 	}
-	return pkg + "_" + typ.Obj().Name()
+	// distinct instantiations of a generic type are distinct types
+	return pkg + "_" + typ.Obj().Name() + gen.TypeArgsSuffix(typ)
 }
 
 // functionName returns the name of the validation function
